@@ -88,9 +88,11 @@ def run_cases(ctx, n_cases):
         st = rs.Station(area_alg=rng.choice(["SIMPLE", "CBF", "UNSPECIFIED"]), ego=ego, max_area_km2=maxa)
         sc = rs.Scenario(rng, st, n_sources=4)
         evs, meta = [], []
-        # one neighbour so that forwarding is not suppressed by store-carry-forward
-        evs.append(sc.rx_event("beacon", src=sc.sources[0]))
-        meta.append(None)
+        # mostly with one neighbour (then forwarding is not suppressed by store-carry-forward); a share of the batches
+        # has no neighbour at all, and packets carry SCF = 1 now and then: the size / Annex D clauses hold there too
+        if (start // per) % 4 != 3:
+            evs.append(sc.rx_event("beacon", src=sc.sources[0], rhl=1, mhl=1))
+            meta.append(None)
         for (shape, a, b, angle, u, v, mode) in gen_cases(ctx, per):
             area = place_area(rng, ego, shape, a, b, angle, u, v)
             kind = rng.choice(["gbc", "gac"])
@@ -104,7 +106,7 @@ def run_cases(ctx, n_cases):
                 meta.append(("req", area, mode))
             else:
                 src = rng.choice(sc.sources[1:])
-                ev = sc.rx_event(kind, src=src, area=area, rhl=rng.choice([2, 3, 10]), mhl=10, scf=False)
+                ev = sc.rx_event(kind, src=src, area=area, rhl=rng.choice([2, 3, 10]), mhl=10, scf=(rng.random() < 0.25))
                 evs.append(ev)
                 meta.append(("rx", area, mode))
             sc.now += rng.choice([1, 20, 300])
